@@ -116,6 +116,7 @@ const (
 type Plan struct {
 	Funcs     []Func
 	RecLocals [2]int // number of i64 locals of rec0/rec1
+	PreFd     int32  // WASI atoms: the pre-opened directory descriptor they use (0 means 3)
 	RecHost   bool   // rec0/rec1 call the pure host function env.recprobe at every level before recursing
 	// NImports: number of functions imported from module ImportFrom
 	// (f_0..f_{NImports-1} of that module's plan).
@@ -348,6 +349,10 @@ func (p *Plan) Encode() []byte {
 	m := &wasmb.Module{Name: p.Name, NameSection: true}
 	i32 := []wasmb.ValType{wasmb.I32}
 	l := p.Layout()
+	preFd := p.PreFd
+	if preFd == 0 {
+		preFd = 3
+	}
 	m.ImportFunc("env", "h", []wasmb.ValType{wasmb.I32, wasmb.I32}, i32)
 	m.ImportFunc("wasi_snapshot_preview1", "proc_exit", i32, nil)
 	w32, w64 := wasmb.I32, wasmb.I64
@@ -429,7 +434,7 @@ func (p *Plan) Encode() []byte {
 				// (the number of bytes used depends on the host's directory order: not part of the result)
 				stride := a.A/24 + 2
 				rd := func(ln int32) {
-					c.I32Const(3).I32Const(0x400).I32Const(ln).LocalGet(2).I64ExtendI32U().I32Const(0x3f0).Call(l.FdReaddir)
+					c.I32Const(preFd).I32Const(0x400).I32Const(ln).LocalGet(2).I64ExtendI32U().I32Const(0x3f0).Call(l.FdReaddir)
 					c.I32Const(1000).I32Mul().LocalGet(1).I32Add().LocalSet(1)
 				}
 				c.I32Const(a.B).LocalSet(2)
@@ -492,7 +497,7 @@ func (p *Plan) Encode() []byte {
 				c.LocalGet(1).I32Const(fd).I32Const(0x100).I32Const(1).I32Const(0x110).Call(l.FdWrite).I32Add().LocalSet(1)
 			case AOpen:
 				c.I32Const(0x130).I32Const(-1).I32Store(0)
-				c.I32Const(3).I32Const(0).I32Const(0x120).I32Const(1).I32Const(1).I64Const(0x42).I64Const(0x42).I32Const(0).I32Const(0x130).Call(l.PathOpen)
+				c.I32Const(preFd).I32Const(0).I32Const(0x120).I32Const(1).I32Const(1).I64Const(0x42).I64Const(0x42).I32Const(0).I32Const(0x130).Call(l.PathOpen)
 				c.I32Const(1000).I32Mul().I32Const(0x130).I32Load(0).I32Add().LocalGet(1).I32Add().LocalSet(1)
 			case AClose:
 				c.LocalGet(1).I32Const(0x130).I32Load(0).Call(l.FdClose).I32Add().LocalSet(1)
